@@ -150,7 +150,9 @@ pub fn run(sim: &Sim, _idx: u64) {
     }
     let trailers = gen_trailers(sim);
     let trailers_only = nresp == 0 && sim.chance(1, 3);
-    let mut resp_headers: Vec<(String, Vec<u8>)> = vec![("content-type".into(), b"application/grpc".to_vec()), ("x-resp-head".into(), b"h".to_vec())];
+    // the inner gRPC service may name its message format in the content-type (`+proto`, `+json`)
+    let inner_ct: &[u8] = sim.pick(&[&b"application/grpc"[..], &b"application/grpc"[..], &b"application/grpc+proto"[..], &b"application/grpc+json"[..]]);
+    let mut resp_headers: Vec<(String, Vec<u8>)> = vec![("content-type".into(), inner_ct.to_vec()), ("x-resp-head".into(), b"h".to_vec())];
     let mut resp_body: Vec<Ev> = vec![];
     if trailers_only {
         resp_headers.extend(trailers.clone());
